@@ -25,7 +25,7 @@ from concurrent.futures import ThreadPoolExecutor
 CHECKS = {
     'C04': dict(
         engine='Lifecycle',
-        technique='TLA+ spec Lifecycle.tla (parent procedures wait/terminate/is_alive/close of thread, process and remote workers step by step; child OS states running/frozen/stopped; control threads; server-side control thread; frontend thread) model-checked with TLC: liveness "every call returns" under weak fairness, safety Truthful/DeadFast/Force, pre-fix variants rejected; TLC enumerates all outcomes of planned histories; each history replayed on real workers with real SIGSTOP / GIL-holding C call / exception-swallowing targets; TLC judges every real execution (LifecycleJudge) against /proc ground truth; model outcomes vs real outcomes = conformance',
+        technique='TLA+ spec Lifecycle.tla (parent procedures wait/terminate/is_alive/close of thread, process and remote workers step by step; child OS states running/frozen/stopped; control threads; server-side control thread; frontend thread) model-checked with TLC: liveness "every call returns" under weak fairness, safety Truthful/DeadFast/Force/Stable, pre-fix variants rejected; TLC enumerates all outcomes of planned histories; each history replayed on real workers with real SIGSTOP / GIL-holding C call / exception-swallowing targets; TLC judges every real execution (LifecycleJudge) against /proc ground truth; model outcomes vs real outcomes = conformance',
         text='Exhaustive TLC model checking (all call histories up to 3 (quick: liveness to 2) / 4 (thorough) over 38 scenarios (incl. a child that has reported its result while its process lingers): kind x persistent x target behaviour x start state, with SIGSTOP at any point), bound to the code by replaying planned histories on real thread/process/remote workers and judging each real execution with the same TLA+ operators.',
         note='Trusted: TLC; the timing abstraction (a small timeout expires only when no other party can step; timeout 0 may expire at once); /proc as ground truth for child liveness; durations classed against generous bounds (3*timeout+2 s; "at once" = under 0.3 s, re-measured before alarming). Server process itself is assumed responsive. Replay covers a seeded sample of histories of length 3-4 (all of length <= 2 in the thorough tier).',
         design_ref='6/C04'),
@@ -39,6 +39,7 @@ WNAME = 'lifeW'
 OPS_ALL = ['wait0', 'waitT', 'term0', 'termT', 'term0F', 'termTF', 'alive', 'close']
 OPS_THREAD = ['wait0', 'waitT', 'term0', 'termT', 'alive', 'close']
 OPS_NOTERM = ['wait0', 'waitT', 'alive', 'close']
+WT_OPS = ('wait0', 'waitT', 'term0', 'termT', 'term0F', 'termTF')
 
 
 def _op_timeout(op):
@@ -115,6 +116,10 @@ def host_main(case_path, out_path):
                     'linger': TG.linger_ret}
         if start == 'notrun':
             w = cls(target=None, **kw)
+        elif pers and beh == 'slowres':
+            # the child answers at once and is idle again; the frontend thread in THIS process is busy rebuilding the result
+            w = cls(target=TG.slow_result_target, **kw)
+            w.enqueue(flag)
         elif pers:
             w = cls(target=TG.pers_target, **kw)
             if start == 'run' and beh != 'idle':
@@ -212,7 +217,8 @@ def host_main(case_path, out_path):
             pre = 'dead' if gone_stable() else 'alive'
             nsig = len(sigs)
             box = run_call(op)
-            rec = {'op': op, 'pre': pre, 'stopped': 'T' if stopped else 'F'}
+            rec = {'op': op, 'pre': pre, 'stopped': 'T' if stopped else 'F',
+                   'after_true': 'T' if any(c_['op'] in WT_OPS and c_['ret'] == 'T' for c_ in calls) else 'F'}
             if box is None:
                 rec.update(ret='hung', durc='hung', fast='F', dur=-1.0,
                            os_ret='dead' if child_dead() else 'alive', selfsig='T' if len(sigs) > nsig else 'F')
@@ -282,6 +288,8 @@ def _valid(kind, pers, beh, start):
         return False
     if beh == 'linger' and (kind == 'thread' or pers != 'F'):
         return False
+    if beh == 'slowres' and (kind != 'remote' or pers != 'T'):
+        return False
     if beh == 'idle' and pers != 'T':
         return False
     if start != 'run' and beh != 'coop':
@@ -295,7 +303,7 @@ def scenarios():
     out = []
     for kind in ('thread', 'process', 'remote'):
         for pers in ('F', 'T'):
-            for beh in ('coop', 'swallow', 'sleep', 'frozen', 'idle', 'linger'):
+            for beh in ('coop', 'swallow', 'sleep', 'frozen', 'idle', 'linger', 'slowres'):
                 for start in ('run', 'dead', 'notrun'):
                     if _valid(kind, pers, beh, start):
                         out.append(dict(kind=kind, pers=pers, beh=beh, start=start))
@@ -346,6 +354,11 @@ def gen_cases(tier, rng):
         add(S(kind, 'linger'), ['wait0', 'waitT', 'termT', 'termTF'])
         add(S(kind, 'linger'), ['alive', 'waitT', 'term0F', 'alive'])
         add(S(kind, 'linger'), ['waitT', 'stop', 'termTF', 'alive'])
+    # the remote child is idle, the frontend thread is busy with a slow result: the worker is not dead when the child is
+    add(S('remote', 'slowres', 'T'), ['termT', 'termT', 'alive', 'wait0'])
+    add(S('remote', 'slowres', 'T'), ['termTF', 'termTF', 'wait0', 'alive'])
+    add(S('remote', 'slowres', 'T'), ['waitT', 'waitT', 'alive', 'termT'])
+    add(S('remote', 'slowres', 'T'), ['term0', 'term0', 'term0', 'alive'])
     add(S('process', 'idle', 'T'), ['stop', 'termT'])
     add(S('remote', 'idle', 'T'), ['close', 'stop', 'termTF', 'alive'])
     # back-to-back calls (no pause between them)
@@ -422,7 +435,7 @@ def _run_hosts(cases, scratch, par=12):
 def _record(case, out):
     calls = []
     for c in out['calls']:
-        calls.append({k: c[k] for k in ('op', 'ret', 'durc', 'fast', 'pre', 'os_ret', 'os_grace', 'selfsig')})
+        calls.append({k: c[k] for k in ('op', 'ret', 'durc', 'fast', 'pre', 'os_ret', 'os_grace', 'selfsig', 'after_true')})
     return {'id': case['id'], 'scn': {k: case[k] for k in ('kind', 'pers', 'beh', 'start', 'ops', 'pace')},
             'obs': {'calls': calls}}
 
@@ -472,9 +485,12 @@ def run(prop, tier, replay=None):
         jobs['mc_safe'] = dict(cfg=_mc_cfg(MaxOps='3').replace('PROPERTY Live_Returns', ''), workers=6, label='exhaustive, histories <= 3, safety, all fixes applied')
     else:
         jobs['mc_live'] = dict(cfg=_mc_cfg(MaxOps='4'), workers=16, label='exhaustive, histories <= 4, liveness + safety, all fixes applied')
-    for nm, fx in (('pre_all', 'FixNone'), ('pre_poll', 'FixNoPoll'), ('pre_kill', 'FixNoKill'), ('pre_self', 'FixNoSelf')):
-        jobs[nm] = dict(cfg=_mc_cfg(MaxOps='2', Fix=fx), workers=2, label='pre-fix variant %s (must be rejected)' % fx, expect_error=True)
-    jobs['whatif_reportmeansdead'] = dict(cfg=_mc_cfg(MaxOps='2', ReportMeansDead='TRUE'), workers=2, expect_error=True,
+    for nm, fx, sub in (('pre_all', 'FixNone', 'FreeProcess'), ('pre_poll', 'FixNoPoll', 'FreeProcess'), ('pre_kill', 'FixNoKill', 'FreeRemote'),
+                        ('pre_self', 'FixNoSelf', 'FreeRemote')):
+        jobs[nm] = dict(cfg=_mc_cfg(MaxOps='2', Fix=fx, Cases=sub), workers=2, label='pre-fix variant %s on %s (must be rejected)' % (fx, sub), expect_error=True)
+    jobs['whatif_remdeadmeansdead'] = dict(cfg=_mc_cfg(MaxOps='3', RemDeadMeansDead='TRUE', Cases='FreeRemote').replace('PROPERTY Live_Returns', ''), workers=2, expect_error=True,
+                                           label='what-if: RemoteWorker.terminate answers True once the remote child is known to be gone (must be rejected)')
+    jobs['whatif_reportmeansdead'] = dict(cfg=_mc_cfg(MaxOps='2', ReportMeansDead='TRUE', Cases='FreeProcess'), workers=2, expect_error=True,
                                           label='what-if: wait() takes the arrival of the final message for the death of the child (must be rejected)')
     for wn in ('W_TrueAnswer', 'W_DeadCall', 'W_ForceStopped', 'W_ForceFrozen', 'W_Swallowed'):
         jobs[wn] = dict(cfg=_mc_cfg(MaxOps='2').replace('PROPERTY Live_Returns', 'INVARIANT ' + wn), workers=2, label='witness ' + wn, expect_error=True)
@@ -490,7 +506,7 @@ def run(prop, tier, replay=None):
             if r.error is not None or r.completed:
                 break                  # a JVM that died without a verdict (machine under load) is run once more
         return nm, r
-    with ThreadPoolExecutor(max_workers=len(jobs) if tier == 'quick' else 4) as ex:
+    with ThreadPoolExecutor(max_workers=7 if tier == 'quick' else 4) as ex:      # the big jobs are first in the dict
         results = dict(ex.map(tlc_job, list(jobs)))
     wit = {}
     for nm, r in results.items():
@@ -504,6 +520,8 @@ def run(prop, tier, replay=None):
             if r.error or not r.completed:
                 raise MachineryError('%s: Lifecycle.tla fails: %s\n%s\n%s' % (nm, r.error, '\n'.join(r.trace[:80]), r.stdout[-1500:]))
             ev.add_tlc(j['label'], r, role='model')
+    if wit['whatif_remdeadmeansdead'] != 'invariant:Inv_Stable':
+        raise MachineryError('what-if RemDeadMeansDead is rejected for an unexpected reason: %r' % wit['whatif_remdeadmeansdead'])
     if wit['whatif_reportmeansdead'] != 'invariant:Inv_Truthful':
         raise MachineryError('what-if ReportMeansDead is rejected for an unexpected reason: %r' % wit['whatif_reportmeansdead'])
     if not wit['pre_poll'].startswith('temporal') or wit['pre_kill'] != 'invariant:Inv_Force' or wit['pre_self'] != 'invariant:Inv_NoSelfKill':
